@@ -1,7 +1,7 @@
 (* Non-vacuity: concrete, non-trivial instances meeting the hypotheses of the conditional theorems,
    so that none of them holds merely because nothing satisfies its premises.  (On G_syn.) *)
 From Coq Require Import NArith Bool List.
-From PK Require Import Base.Outcome Base.Finite Base.Machine Gen.All Impl Spec.Frame Spec.ScanRef Spec.ScanAuto Spec.Event Spec.Charts
+From PK Require Import Base.Outcome Base.Finite Base.Machine Gen.All Impl Spec.Frame Spec.ScanRef Spec.ScanAuto Spec.Mods Spec.Charts
   Syn.Ps2 Syn.Set1 Syn.Set2 Syn.Lay Syn.Ev Check.Scan Check.Lay Check.C03 Check.C09 Check.C10 Check.C12 Check.C13 Check.C16 Check.C19 Check.C05.
 Import ListNotations.
 Local Open Scope N_scope.
